@@ -179,8 +179,14 @@ fn check(case: &Case) -> CheckResult {
     mk("p2", None, &mut pool)?;
     let p0 = pool[0].clone();
     mk("p3", Some(&p0), &mut pool)?;
-    must(env.jj(&root, &["git", "clone", "remote.git", "J"]), "jj git clone")?;
+    // `jj git clone`/`jj git fetch` need git >= 2.41 (`git fetch --porcelain`); this image has
+    // git 2.39, so the clone is `jj git init` + `jj git remote add`, and a fetch is emulated by
+    // `git fetch` into the backing repository followed by `jj git import` (what jj's fetch amounts to).
+    must(env.jj(&root, &["git", "init", "J"]), "jj git init")?;
     let j = root.join("J");
+    let remote_str = remote.to_string_lossy().into_owned();
+    must(env.jj(&j, &["git", "remote", "add", "origin", &remote_str]), "jj git remote add")?;
+    let backing = j.join(".jj").join("repo").join("store").join("git");
     let repo_dir = j.join(".jj").join("repo");
 
     let mut stale_pushes = 0usize;
@@ -213,9 +219,16 @@ fn check(case: &Case) -> CheckResult {
                 env.jj(&j, &["bookmark", "track", &format!("{}@origin", BOOKMARKS[*b as usize % 2])]);
             }
             Step::Fetch => {
-                let out = env.jj(&j, &["git", "fetch"]);
+                must(
+                    env.git(
+                        &backing,
+                        &["fetch", "-q", "--prune", "origin", "+refs/heads/*:refs/remotes/origin/*"],
+                    ),
+                    "git fetch (emulated jj git fetch)",
+                )?;
+                let out = env.jj(&j, &["git", "import"]);
                 if out.signal.is_some() {
-                    return Err(Violation::new(format!("step {step_no}: jj git fetch died: {}", out.brief())));
+                    return Err(Violation::new(format!("step {step_no}: jj git import died: {}", out.brief())));
                 }
             }
             Step::RemoteSet(b, p) => {
